@@ -31,6 +31,9 @@ pub enum Op {
     SetPdBad,
     /// setup(P1) with a SECOND validity checker (world 2 = world 1 plus an obstacle on the scripted route)
     SetupP1W2,
+    /// setup(P1') where P1' = P1 with the start stored as another representation of the same configuration
+    /// (angle + 2 pi, -q): distance 0 from P1's start, different bits
+    SetupP1Twin,
 }
 
 #[derive(Clone, Copy, Debug, PartialEq, Eq)]
@@ -79,6 +82,8 @@ struct Harness<K: Kit> {
     s1: K::S,
     s2: K::S,
     world2: Arc<crate::seams::World<K>>,
+    /// (problem, start) of the twin-start variant of P1, where the space has equivalent representations
+    twin: Option<(Arc<Pd<K>>, K::S)>,
 }
 
 fn harness<K: Kit>(sc: &Scenario) -> Harness<K> {
@@ -99,14 +104,44 @@ fn harness<K: Kit>(sc: &Scenario) -> Harness<K> {
     w2.name = format!("{}+route-blocked", w2.name);
     w2.obst.push(ObstSpec::Ball(b.alphabet[ak.fwd[1] as usize].clone(), ak.far_r.max(0.1)));
     let world2 = Arc::new(crate::scen::build_world::<K>(&sc.spec, &w2));
-    Harness { rig, p1, p2, pbad, g1, g2, s1, s2, world2 }
+    let twin_v = match K::to_v(&s1) {
+        V::So2(a) => Some(V::So2(a + 2.0 * std::f64::consts::PI)),
+        V::So3(q) => Some(V::So3([-q[0], -q[1], -q[2], -q[3]])),
+        V::Cmp(mut c) => {
+            let mut changed = false;
+            for x in c.iter_mut() {
+                match x {
+                    V::So2(a) => {
+                        *a += 2.0 * std::f64::consts::PI;
+                        changed = true;
+                    }
+                    V::So3(q) => {
+                        *q = [-q[0], -q[1], -q[2], -q[3]];
+                        changed = true;
+                    }
+                    _ => {}
+                }
+            }
+            if changed {
+                Some(V::Cmp(c))
+            } else {
+                None
+            }
+        }
+        _ => None,
+    };
+    let twin = twin_v.map(|v| {
+        let st = K::from_v(&v);
+        (Arc::new(Pd::<K> { space: rig.space.clone(), start_states: vec![st.clone()], goal: g1.clone() }), st)
+    });
+    Harness { rig, p1, p2, pbad, g1, g2, s1, s2, world2, twin }
 }
 
 pub fn menu(pk: Pk) -> Vec<Op> {
     if pk == Pk::Prm {
         vec![Op::SetupP1, Op::SetupP2, Op::SetupBad, Op::SetupP1W2, Op::Construct, Op::SetPd1, Op::SetPd2, Op::SetPdBad, Op::SolveF]
     } else {
-        vec![Op::SetupP1, Op::SetupP2, Op::SetupBad, Op::SetupP1W2, Op::SolveF, Op::SolveR]
+        vec![Op::SetupP1, Op::SetupP2, Op::SetupBad, Op::SetupP1W2, Op::SetupP1Twin, Op::SolveF, Op::SolveR]
     }
 }
 
@@ -158,6 +193,7 @@ fn run_sequence<K: Kit>(prop: &str, sc: &Scenario, seq: &[Op], faults: (Option<u
     let mut pd = Prob::None; // installed problem
     let mut vc = false; // checker installed
     let mut in_world2 = false; // which checker is the installed one
+    let mut twin_start = false; // the installed P1 has the twin start
     let mut outcome_sig: Vec<u64> = Vec::new();
     rep.count("evaluations", 1);
     let replay = |i: usize, extra: Value| json!({"kind": "api", "prop": prop, "scenario": sc.json(), "calls": format!("{seq:?}"), "goal_sampler_fails_at": format!("{faults:?}"), "failing_call": i, "detail": extra});
@@ -181,6 +217,12 @@ fn run_sequence<K: Kit>(prop: &str, sc: &Scenario, seq: &[Op], faults: (Option<u
                 }
                 Op::SetupP1W2 => {
                     h.rig.drv.setup(h.p1.clone(), h.world2.clone());
+                    None
+                }
+                Op::SetupP1Twin => {
+                    // spaces without equivalent representations: the twin is P1 itself
+                    let pd = h.twin.as_ref().map(|t| t.0.clone()).unwrap_or_else(|| h.p1.clone());
+                    h.rig.drv.setup(pd, h.rig.world.clone());
                     None
                 }
                 Op::SetPd1 => {
@@ -238,9 +280,10 @@ fn run_sequence<K: Kit>(prop: &str, sc: &Scenario, seq: &[Op], faults: (Option<u
         };
         // ---- reference automaton
         match op {
-            Op::SetupP1 | Op::SetupP2 | Op::SetupBad | Op::SetupP1W2 => {
+            Op::SetupP1 | Op::SetupP2 | Op::SetupBad | Op::SetupP1W2 | Op::SetupP1Twin => {
+                twin_start = *op == Op::SetupP1Twin && h.twin.is_some();
                 pd = match op {
-                    Op::SetupP1 | Op::SetupP1W2 => Prob::P1,
+                    Op::SetupP1 | Op::SetupP1W2 | Op::SetupP1Twin => Prob::P1,
                     Op::SetupP2 => Prob::P2,
                     _ => Prob::Bad,
                 };
@@ -301,7 +344,10 @@ fn run_sequence<K: Kit>(prop: &str, sc: &Scenario, seq: &[Op], faults: (Option<u
                 }
                 if let Ok(path) = &res {
                     // the answer must be for the most recently installed problem
-                    let (start, goal) = if pd == Prob::P1 { (&h.s1, &h.g1) } else { (&h.s2, &h.g2) };
+                    let (start, goal) = if pd == Prob::P1 { (if twin_start { &h.twin.as_ref().unwrap().1 } else { &h.s1 }, &h.g1) } else { (&h.s2, &h.g2) };
+                    if twin_start {
+                        rep.count("ok_paths_from_a_twin_start", 1);
+                    }
                     let bad = if path.is_empty() {
                         Some("empty-path")
                     } else if !K::same(&path[0], start) {
